@@ -58,6 +58,9 @@ ESSENTIAL = ["task:compress", "task:repack", "task:condense", "task:tdms2rtdc",
              "temp-feature", "second-application", "opt:strip-logs",
              "opt:strip-basins", "opt:no-ancillary", "opt:no-basin-features",
              "kind:image", "kind:contour", "kind:trace", "kind:mask"]
+#: rounds after a violation (each round re-runs the remaining budget with the
+#: signatures found so far excluded); 3 keeps runs against broken trees short
+MAX_ROUNDS = 3
 ASSUMPTIONS = [
     "version shim (dclab._version pre-seeded with 0.62.7)",
     "the defective-feature rules are transcribed from the docstrings of feat_defect.py for "
@@ -602,6 +605,10 @@ def expected_defective(feat, spec, names, lognames, time_f4, emptylogs=()):
     """own transcription of the documented rules of feat_defect.py
     (None = the rules do not say: marker log present but empty, ...)"""
     sw, last = SW[spec["sw"]]
+    if spec.get("_branded"):
+        # input of a second application of compress / condense: the first
+        # run appended the current dclab version to the version string
+        sw, last = brand(sw), (0, 62, 7)
     sw = sw or ""
     first = sw.split("|")[0].strip()
     if feat == "aspect":
@@ -964,13 +971,11 @@ def compare(rec, spec, info, pin, pout, task, opts, cls, pre, first):
                 continue
             defect = False
             if nm in DEFECTABLE:
-                if first:
-                    defect = expected_defective(
-                        nm, spec, in_names, lognames,
-                        time_f4=(nm == "time" and evi[nm].dtype == np.float32),
-                        emptylogs=emptylogs)
-                else:
-                    defect = False
+                mspec = spec if first else dict(spec, _branded=(task != "repack"))
+                defect = expected_defective(
+                    nm, mspec, in_names, lognames,
+                    time_f4=(nm == "time" and evi[nm].dtype == np.float32),
+                    emptylogs=emptylogs)
             if defect is None:
                 rec.skip("defect-rule-unspecified-for-this-file")
                 unspec.add(nm)
